@@ -35,7 +35,7 @@ Definition f_batch (b : batch) : AR.batch :=
 Definition f_file (bs : list batch) : AR.file := VO.create_file A (map f_batch bs) [].
 
 (* what validity of a batch says about each (signature, entry) pair — the form in which
-   C12_valid_pairs_partial transports it to the result *)
+   C12_pairs_transported transports it to the result *)
 Definition pair_ok (p : bytes * entry) : Prop :=
   let s := fst p in let e := snd p in
   class_okb A (hp_class (hp s)) = true /\
